@@ -247,6 +247,11 @@ var _ = pbt.Register(pbt.Spec[Case]{
 			a.Ptrs = ptrs
 		}
 		c := Case{A: a, B: gen.Relayout(t, a, false), PlanA: gen.Plan(t, 4), PlanB: gen.Plan(t, 4), LiveCap: rapid.Bool().Draw(t, "live")}
+		if rapid.IntRange(0, 3).Draw(t, "padfill") == 0 {
+			// list padding (unused bits of a bit list's last byte, bytes up to the word boundary) is not zero in the inputs
+			c.PlanA.PadFill = byte(rapid.SampledFrom([]int{0, 0xff, 0xa5, 0xf0}).Draw(t, "padA"))
+			c.PlanB.PadFill = byte(rapid.SampledFrom([]int{0, 0xff, 0x5a, 0x80}).Draw(t, "padB"))
+		}
 		if rapid.IntRange(0, 5).Draw(t, "elem") == 0 {
 			c.Elem = rapid.IntRange(1, 3).Draw(t, "elemi")
 			// both encodings must wrap elements of the same size for the list to be well formed: B keeps its own (padded) size
